@@ -165,6 +165,28 @@ def _sel(R, unit, only):
                             break
                 except Exception as e:
                     R.mismatch("selector-result-unusable:" + type(e).__name__, inner, f"{e!s:.200}")
+                # what a caller does to a result must not show in the next answer: scribble on it, ask the same selector again
+                if kk % 5 == 0 and hi > lo:
+                    try:
+                        if isinstance(res, pd.Series):
+                            res.iloc[:] = res.iloc[0]
+                            res.index = [900 + q for q in range(len(res))]
+                        else:
+                            res.iloc[:, 0] = res.iloc[0, 0]
+                            res.index = [900 + q for q in range(len(res))]
+                        again = sel[a:b] if kind == "slice" else sel[a]
+                        c0 = sub if isinstance(sub, str) else want_cols[0]
+                        ser = again if isinstance(again, pd.Series) else again[c0]
+                        wv = raw[tab][c0][lo:hi]
+                        gv = ser.tolist()
+                        if tab == "bins" and c0 == "chrom":
+                            okv = [str(x) for x in gv] == [names[x] for x in wv] or gv == wv
+                        else:
+                            okv = gv == wv
+                        if list(again.index) != list(range(lo, hi)) or not okv:
+                            R.mismatch("second-answer-shows-edits-made-to-the-first", inner, f"index={list(again.index)} values={gv} want={wv}")
+                    except Exception as e:
+                        R.mismatch("selector-raises-on-repeat:" + type(e).__name__, inner, f"{e!s:.200}")
     R.sample({"leg": "sel", "table": tab, "N": N, "enc": unit["enc"], "slices": len(_slices(N)), "column_selections": len(subsets)})
 
 
